@@ -372,6 +372,14 @@ def _strategy_base():
             w = self.spec['enter']['when']
             if w == 'flat':
                 return True
+            if w in ('bullish', 'bearish'):
+                # decisions that depend on the SHAPE of the completed trading candle (its open against its close)
+                c = self.current_candle
+                return (c[2] > c[1]) if w == 'bullish' else (c[2] < c[1])
+            if w == 'breakout':
+                # ... and on its high against the previous candle's high
+                cs = self.candles
+                return len(cs) >= 2 and cs[-1][3] > cs[-2][3]
             return self.index in w['at']
 
         def should_long(self):
